@@ -294,12 +294,15 @@ Definition a_init_spec : aspec :=
 
 Definition not_started : sub_obs := {| so_started := false; so_accepted := false; so_resp := None; so_received := []; so_ended := false |}.
 
-Fixpoint listed_ok (e : list (option nat)) (o : list nat) : bool :=
+(* while the hub is open the list is exactly the live subscribers; a stopped hub keeps a stale list (removals are refused),
+   but nothing is ever added to it: later registrations are rejected without effect *)
+Fixpoint listed_ok_from (prev : nat) (e : list (option nat)) (o : list nat) : bool :=
   match e, o with
   | [], [] => true
-  | x :: e', y :: o' => (match x with Some n => Nat.eqb n y | None => true end) && listed_ok e' o'
+  | x :: e', y :: o' => (match x with Some n => Nat.eqb n y | None => Nat.leb y prev end) && listed_ok_from y e' o'
   | _, _ => false
   end.
+Definition listed_ok (e : list (option nat)) (o : list nat) : bool := listed_ok_from 0 e o.
 
 Definition hub_spec_ok (c : hub_case) : bool :=
   let '(a, ms, ls) := spec_ops (mt_of (hc_mt c)) (hc_persistent c) (hc_tracking c) (hc_size c) (hc_reqs c) (hc_cap c) a_init_spec (hc_ops c) in
